@@ -115,6 +115,9 @@ fv = z3.Function("fv", Node, NodeSet)
 isconst = z3.Function("isconst", Node, B)    # FNode.is_constant() spec
 
 
+JOURNAL = []
+
+
 class Tracked:
     """z3 function whose applications are recorded (for explicit lemma
     instantiation without walking the terms through the slow Python API)."""
@@ -122,10 +125,21 @@ class Tracked:
         self.f = z3.Function(name, *sig)
         self.name = name
         self.apps = {}
+        self.quiet_ids = set()
 
     def __call__(self, *args):
         t = self.f(*args)
         self.apps[t.get_id()] = t
+        JOURNAL.append((self, t))
+        return t
+
+    def quiet(self, *args):
+        """application that only gets the single-term lemmas (range facts)"""
+        t = self.f(*args)
+        if t.get_id() not in self.apps:
+            self.quiet_ids.add(t.get_id())
+        self.apps[t.get_id()] = t
+        JOURNAL.append((self, t))
         return t
 
     def eq(self, other):
@@ -148,7 +162,20 @@ TRACKED = [pow2, band, bor, bxor, asel, astore, acst]
 def reset_tracking():
     for t in TRACKED:
         t.apps.clear()
+    del JOURNAL[:]
 
+
+def replay_tracking(entries):
+    for tr, t in entries:
+        tr.apps[t.get_id()] = t
+        JOURNAL.append((tr, t))
+
+# denotations as functions of the interpretation (binder laws, DESIGN 3.3)
+Sem = z3.DeclareSort("Sem")
+semf = z3.Function("semf", Node, Sem)        # the denotation of a node: Interp -> Val
+ev = z3.Function("ev", Sem, Val)             # ... evaluated at the fixed arbitrary interpretation
+dep = z3.Function("dep", Sem, NodeSet)       # symbols the denotation depends on
+qsem = z3.Function("qsem", I, NodeSet, Sem, Sem)   # quantification over a set of symbols
 # uninterpreted application of an uninterpreted function symbol (node) to values
 uf_app = z3.Function("uf_app", Node, z3.SeqSort(Val), Val)
 # division by zero: unconstrained functions of the dividend (SMT-LIB)
